@@ -5,7 +5,7 @@
   Mathlib-free (executed by the driver).
 -/
 import PyTough.Model.T2Sections
-namespace Model
+namespace Model.T2
 open Py
 open Gen.Sections (Rec)
 
@@ -406,4 +406,4 @@ def splitLines (s : Str) : List Str :=
     | c :: r, acc => if c = '\n' then (c :: acc).reverse :: go r [] else go r (c :: acc)
   go s []
 
-end Model
+end Model.T2
